@@ -606,8 +606,11 @@ def shrink(case: Any, bucket: str, budget: float) -> Any:
 
 def health(m: Any, tier: str) -> Any:
     acc = m["classes"].get("accepted", 0)
-    if acc < 0.9 * m["evaluations"]:
-        return f"only {acc}/{m['evaluations']} generated models accepted by the front end"
+    models = m["evaluations"] - m["classes"].get("unit:text", 0)  # the function-level stage has its own cases
+    if acc < 0.9 * models:
+        return f"only {acc}/{models} generated models accepted by the front end"
+    if m["classes"].get("unit:text", 0) < 10 * models and tier == "quick":
+        return f"function-level stage ran only {m['classes'].get('unit:text', 0)} texts"
     for target in sut.TARGETS:
         ok = m["classes"].get(f"{target}:generated", 0)
         if ok < 0.3 * acc:
